@@ -33,7 +33,8 @@ class Model:
     def __init__(self, program, std=None):
         self.p = program
         self.std = std or program.primary_std()
-        self.fns = list(program.functions(self.std))
+        # bodies the compiler writes for `= default` special members are not source: nothing in them can be edited
+        self.fns = [f for f in program.functions(self.std) if not f.unit.decl(f.decl).get('defaulted')]
         self.by_tname = defaultdict(list)
         for f in self.fns:
             self.by_tname[f.tname].append(f)
